@@ -614,6 +614,23 @@ struct W {
 			replace_root = true;
 			break;
 		}
+		if (json_object_get_type(root) == json_type_object && c.coin(8))
+		{
+			// refused at the last step: an object cannot be made a member of itself. The caller keeps its reference,
+			// nothing changes, and whatever the call allocated on the way (the unescaped member name) is released.
+			json_object *obj = root;
+			json_object_get(root);
+			static const char *selfp[] = {"/self", "/a~1b", "/a", "/k~0"};
+			const char *sp = selfp[c.pickn(4)];
+			int r = json_pointer_set(&obj, sp, root);
+			log("json_pointer_set #" + str(rid) + " " + quote(sp) + " = itself -> " + str(r));
+			if (r == 0 || obj != root)
+				ctx.fail("retval", "json_pointer_set stored an object as a member of itself");
+			json_object_put(root);
+			f_ptr = f_failed_transfer = true;
+			settle("json_pointer_set(self)");
+			return;
+		}
 		int vi = value_for_transfer(root);
 		if (vi < 0)
 			return;
